@@ -267,6 +267,11 @@ func checkDateString(env *Env, s string, year, m, d int, sameSep bool, o *Outcom
 	if impl != model {
 		addF(o, Finding{Kind: "K", What: "K.C16.date: NewDateFromString/ToString differ from the model on " + s, Impl: impl, Model: model, Input: in})
 	}
+	if groups, ok := gsSubmatch("datePattern", s); ok {
+		gsCompare(env, o, "date", impl, in, append([]string{"gs.date", hx(s)}, groups...)...)
+	} else {
+		addF(o, Finding{Kind: "K", What: "K.gosrc.date: no package-level regexp variable datePattern in the sources", Input: in})
+	}
 	valid := sameSep && m >= 1 && m <= 12 && d >= 1 && d <= gDaysIn(year, m)
 	if valid != (err == nil) {
 		addF(o, Finding{Kind: "D", What: fmt.Sprintf("date literal %q: the calendar says valid=%v", s, valid), Impl: impl, Input: in})
